@@ -39,6 +39,12 @@ CHECKS["C09"] = dict(
    note="Trusted: CBMC, lowering, intrinsic/SIMD-wrapper models. Undecided in the quick tier: Quote's loops (tail guard, tail mask, reservation 6n+32+3 at the serializer call site).",
    technique="CBMC assertions over full finite domains (tables, one vector block) + DFCC function/loop contracts (DoEscape); bounded unwinding for exactness")
 
+CHECKS["C08"] = dict(
+   text="The 8-digit kernels (Utoa_1_8, Utoa_8, UtoaSSE) are decided by exhaustive enumeration of the real compiled code over all 10^8 inputs each (complete for that finite domain; not deductive). The composition is proved by CBMC over all 2^64 values with the kernels as contracts: U64toa's branch partition at 10^8 / 10^16, output = spelling(quotient) followed by the zero-padded digits of the remainder, kernel preconditions at every call, length <= 20, every write inside 24 bytes (25 for I64toa); Utoa_8/Utoa_16 pack-and-store; I64toa's single sign and |INT64_MIN| = 2^63; Utoa_1_8's table indices and write extent.",
+   design_ref="DESIGN.md section 5 (C08)",
+   note="Assumed, not machine-checked: (1) monotonicity of unsigned division by a constant (only the end points are checked); (2) positional notation dec(h*10^k + l) = dec(h) ++ pad_k(l). Trusted: CBMC (z3 back end for the two division-heavy jobs), lowering, intrinsic models of packus/add/store. Observations: `-val` for INT64_MIN; `out -= lz` one byte before a value that starts the buffer.",
+   technique="exhaustive native enumeration of the finite kernels + CBMC contract proofs of the composition (kernels replaced by contracts with uninterpreted digit functions)")
+
 NOT_APPLICABLE = {
  "C01": "driver parseImpl is a goto state machine over C++ containers and a templated SAX handler; no contract lowering achieved yet (leaf recognisers are proved under C04/C05/C11)",
  "C02": "same driver as C01 plus DOM classes/destructors; allocator-kind and leak clauses need the C++ object model CBMC's front end cannot parse",
